@@ -96,12 +96,19 @@ fn gen_frame(rng: &mut Rng, max_len: usize) -> RFrame {
 }
 
 pub fn run(ctx: Ctx, rep: &mut Report) {
+    run_scaled(ctx, rep, false)
+}
+
+/// `tiny` = the reduced workload replayed under Miri (an interpreter, ~1000x slower)
+pub fn run_scaled(ctx: Ctx, rep: &mut Report, tiny: bool) {
     let quick = ctx.tier == crate::report::Tier::Quick;
     let mut rng = Rng::new(ctx.seed ^ 0xC03);
 
     // (a) header-only path: every command byte x every length value
     {
-        let lens: Vec<u32> = if quick {
+        let lens: Vec<u32> = if tiny {
+            vec![0, 1, 7, 65535]
+        } else if quick {
             let mut v: Vec<u32> = vec![0, 1, 2, 6, 7, 8, 255, 256, 257, 16383, 16384, 16385, 32767, 32768, 65534, 65535];
             for _ in 0..112 {
                 v.push(rng.below(65536) as u32);
@@ -156,8 +163,11 @@ pub fn run(ctx: Ctx, rep: &mut Report) {
     {
         let ids: Vec<u32> = vec![0, 1, 2, 0x7FFF_FFFE, 0x7FFF_FFFF, 0x8000_0000, 0x8000_0001, u32::MAX - 1, u32::MAX, rng.next() as u32, rng.next() as u32];
         let mut lens: Vec<usize> = vec![0, 1, 6, 7, 8, 255, 256, 16384, 65534, 65535];
-        for _ in 0..if quick { 4 } else { 40 } {
+        for _ in 0..if tiny { 0 } else if quick { 4 } else { 40 } {
             lens.push(rng.usize(0, 65535));
+        }
+        if tiny {
+            lens.retain(|l| *l <= 256 || *l == 65535);
         }
         let mut n = 0u64;
         for cmd in ENCODABLE {
@@ -218,13 +228,13 @@ pub fn run(ctx: Ctx, rep: &mut Report) {
 
     // (c) concatenations cut at every single / pair of positions, random multi-cuts, 1-byte drip
     {
-        let n_streams = if quick { 60 } else { 1500 };
+        let n_streams = if tiny { 5 } else if quick { 60 } else { 1500 };
         let mut cuts_tried = 0u64;
         let mut frames_seen = 0u64;
         for si in 0..n_streams {
             let nf = rng.usize(1, 20);
             let short = si % 3 != 0;
-            let max_len = if short { 24 } else { 65535 };
+            let max_len = if short { 24 } else if tiny { 300 } else { 65535 };
             let mut frames = Vec::new();
             let mut stream = Vec::new();
             for _ in 0..nf {
@@ -252,7 +262,7 @@ pub fn run(ctx: Ctx, rep: &mut Report) {
                 for c in 1..stream.len() {
                     check(&[c], rep);
                 }
-                if stream.len() <= if quick { 60 } else { 140 } {
+                if stream.len() <= if tiny { 24 } else if quick { 60 } else { 140 } {
                     for a in 1..stream.len() {
                         for b in a + 1..stream.len() {
                             check(&[a, b], rep);
@@ -293,7 +303,7 @@ pub fn run(ctx: Ctx, rep: &mut Report) {
 
     // (d) arbitrary byte strings
     {
-        let n = if quick { 20_000 } else { 400_000 };
+        let n = if tiny { 250 } else if quick { 20_000 } else { 400_000 };
         let mut frames_seen = 0u64;
         for i in 0..n {
             let len = match rng.below(5) {
